@@ -164,22 +164,26 @@ def getWord (stream : List W32) (i : Nat) : Outcome W32 :=
   else
     if loc + 1 < stream.length then .ok ((stream.getD loc 0 <<< b) ||| (stream.getD (loc+1) 0 >>> (32 - b))) else .panic
 
+/-- one iteration of the bit loop of `genMac`: `if m[i/8] & (1 << (7 - i%8)) != 0 { t ^= getWord(stream, i) }` -/
+def genMacStep (m : Bytes) (stream : List W32) (i : Nat) (t : W32) : Outcome W32 :=
+  if i / 8 < m.length then
+    if m.getD (i / 8) 0 &&& (1 <<< UInt8.ofNat (7 - i % 8)) != 0 then
+      match getWord stream i with
+      | .ok w => .ok (t ^^^ w)
+      | .err e => .err e
+      | .panic => .panic
+    else .ok t
+  else .panic
+
+/-- `t ^= getWord(stream, blength); mac = t ^ getWord(stream, 32*(l-1))` -/
+def genMacFin (stream : List W32) (blength : Nat) (t : W32) : Outcome Bytes :=
+  match getWord stream blength, getWord stream (32 * (stream.length - 1)) with
+  | .ok a, .ok b => .ok (put32 (t ^^^ a ^^^ b))
+  | _, _ => .panic
+
 def genMac (m : Bytes) (stream : List W32) (blength : Nat) : Outcome Bytes :=
-  let l := stream.length
-  let body : Outcome W32 := forRange blength 0 (fun i t =>
-    if i / 8 < m.length then
-      if m.getD (i / 8) 0 &&& (1 <<< UInt8.ofNat (7 - i % 8)) != 0 then
-        match getWord stream i with
-        | .ok w => .ok (t ^^^ w)
-        | .err e => .err e
-        | .panic => .panic
-      else .ok t
-    else .panic) 0#32
-  match body with
-  | .ok t =>
-    match getWord stream blength, getWord stream (32 * (l - 1)) with
-    | .ok a, .ok b => .ok (put32 (t ^^^ a ^^^ b))
-    | _, _ => .panic
+  match forRange blength 0 (genMacStep m stream) 0#32 with
+  | .ok t => genMacFin stream blength t
   | .err e => .err e
   | .panic => .panic
 
